@@ -25,6 +25,10 @@ package main
 // delayed/duplicated/reordered, unsolicited answers are sent; budgets bound the
 // tampering. Silent scenarios: one team peer never answers (15 s pool timeout).
 //
+// Crash-resume scenarios (crashresume.go): three honest peers at the top; the node is
+// killed by the durable-write failpoint while it syncs and the same worker is run
+// again on its directory (phase 2).
+//
 // Oracle (continuous and at the end), see oracle.go.
 
 import (
@@ -49,6 +53,7 @@ import (
 	"github.com/dappledger/AnnChain/chain/core"
 	crypto "github.com/dappledger/AnnChain/gemmill/go-crypto"
 	glog "github.com/dappledger/AnnChain/gemmill/modules/go-log"
+	"github.com/dappledger/AnnChain/gemmill/modules/verifhook"
 
 	"verif/lib"
 )
@@ -60,14 +65,23 @@ type episodeSpec struct {
 
 type scenarioSpec struct {
 	ID       int           `json:"id"`
-	Kind     string        `json:"kind"` // surgical | control | final | mix | silent
+	Kind     string        `json:"kind"` // surgical | control | final | mix | silent | crash-resume
 	Episodes []episodeSpec `json:"episodes"`
 	Seed     int64         `json:"seed"`
 	Tier     string        `json:"tier"`
 	P        int           `json:"tamper_percent"` // mix
 	Budget   int           `json:"tamper_budget"`  // mix, per team peer
 	Reopen   bool          `json:"reopen"`
+	// crash-resume (see crashresume.go)
+	H0     int64  `json:"arm_after_height,omitempty"`   // the failpoint is armed when the state of this height has been saved
+	K      int64  `json:"crash_before_write,omitempty"` // SIGKILL before the k-th durable write after arming
+	Filter string `json:"counting_only_site,omitempty"` // k counts only writes whose site contains this
+	Phase  int    `json:"phase,omitempty"`              // 1 = the run that is killed, 2 = the restart on the same directory
+	Note   string `json:"crash_point,omitempty"`        // phase 2: site hit and post-mortem heights (for witnesses)
 }
+
+func (s *scenarioSpec) crashResume() bool { return s.Kind == "crash-resume" }
+func (s *scenarioSpec) restarted() bool   { return s.Kind == "crash-resume" && s.Phase == 2 }
 
 type episode struct {
 	spec     episodeSpec
@@ -150,6 +164,7 @@ type director struct {
 	failed    bool
 	checked   int64 // stored heights compared so far
 	early     bool
+	execBase  int64 // crash-resume, restart: the application's height when the node had been built again
 }
 
 // ---- log hook ---------------------------------------------------------------------------
@@ -158,9 +173,16 @@ type hookCore struct {
 	d *director
 	f *os.File
 	m sync.Mutex
+	// crash-resume: arm the durable-write failpoint when the executer closure has saved the state of armAt
+	armAt  int64
+	crashK int64
+	filter string
+	armed  int32
 }
 
-func (c *hookCore) Enabled(l zapcore.Level) bool        { return l >= zapcore.InfoLevel }
+func (c *hookCore) Enabled(l zapcore.Level) bool {
+	return l >= zapcore.InfoLevel || (c.armAt > 0 && atomic.LoadInt32(&c.armed) == 0)
+}
 func (c *hookCore) With(f []zapcore.Field) zapcore.Core { return c }
 func (c *hookCore) Sync() error                         { return nil }
 func (c *hookCore) Check(e zapcore.Entry, ce *zapcore.CheckedEntry) *zapcore.CheckedEntry {
@@ -211,6 +233,22 @@ func (c *hookCore) Write(e zapcore.Entry, fs []zapcore.Field) error {
 		atomic.StoreInt32(&c.d.switched, 1)
 	case e.Message == "SendTimeout":
 		atomic.AddInt32(&c.d.timeouts, 1)
+	case e.Message == "save to db" && c.armAt > 0 && atomic.LoadInt32(&c.armed) == 0 && fieldInt(fs, "height") == c.armAt:
+		// the last statement of the fast-sync executer closure (gemmill/angine.go), on poolRoutine's
+		// goroutine: block store, application and state of armAt are on disk; the next durable write
+		// of this goroutine is the first one of the commit cycle of armAt+1
+		atomic.StoreInt32(&c.armed, 1)
+		if c.filter != "" {
+			verifhook.SetSiteFilter(c.filter)
+		}
+		verifhook.SetCrashAt(c.crashK)
+		verifhook.Arm()
+		c.m.Lock()
+		fmt.Fprintf(c.f, "# ARMED after height %d: SIGKILL before durable write %d (sites containing %q)\n", c.armAt, c.crashK, c.filter)
+		c.m.Unlock()
+	}
+	if e.Level < zapcore.InfoLevel {
+		return nil
 	}
 	if e.Level >= zapcore.WarnLevel || e.Message == "Executed block" || strings.Contains(e.Message, "switch") || strings.Contains(e.Message, "peer") {
 		c.m.Lock()
@@ -607,6 +645,10 @@ func (d *director) viol(key, what string, extra map[string]interface{}) {
 	}
 	d.failed = true
 	d.mtx.Unlock()
+	if d.spec.restarted() {
+		// the restart of a killed node has its own classes (known findings are matched by exact key)
+		key = "crash-resume:" + key
+	}
 	m := map[string]interface{}{"scenario": d.spec, "seed": lib.Seed(), "chain_top": d.c.top, "validator_set_changes_at": d.c.changes,
 		"replay": fmt.Sprintf("VERIF_SEED=%d ./check C13 %s  (scenario %d; tampered inputs in the worker's .inputs file, kept with the witness)", lib.Seed(), lib.Tier(), d.spec.ID)}
 	for k, v := range extra {
@@ -614,6 +656,9 @@ func (d *director) viol(key, what string, extra map[string]interface{}) {
 	}
 	if b, err := ioutil.ReadFile(d.inlog.Name()); err == nil {
 		m["inputs_log_tail"] = tail(string(b), 20000)
+	}
+	if d.spec.Note != "" {
+		what = "[" + d.spec.Note + "] " + what
 	}
 	d.run.ChildViolation(key, fmt.Sprintf("scenario %d (%s): %s", d.spec.ID, d.spec.Kind, what), m)
 }
@@ -880,7 +925,17 @@ func syncWorker(args []string) {
 			bail("init: %v", err)
 		}
 	}
+	// crash-resume, restart: building the node again on the directory of the killed one is what is
+	// judged; a panic in here kills this process (the parent judges a dead worker)
 	n, conf, err := newNode(dir, port, true)
+	if err != nil && spec.restarted() {
+		run.Eval()
+		run.ChildViolation("crash-resume:restart-fails:NewNode-returns-an-error", fmt.Sprintf("scenario %d (crash-resume): chain/core.NewNode on the directory of the killed node returns %v", spec.ID, err), map[string]interface{}{"scenario": &spec, "seed": spec.Seed})
+		run.MarkComplete()
+		run.ExportTo(out)
+		prefixCounters(out, &spec)
+		os.Exit(0)
+	}
 	if err != nil {
 		bail("NewNode: %v", err)
 	}
@@ -893,9 +948,32 @@ func syncWorker(args []string) {
 	for _, m := range d.mlist {
 		d.muts[m.name] = m
 	}
-	lf, _ := os.Create(filepath.Join(dir, "c13-node-events.log"))
-	glog.SetLog(zap.New(&hookCore{d: d, f: lf}))
+	lflags := os.O_CREATE | os.O_WRONLY | os.O_TRUNC
+	if spec.restarted() {
+		lflags = os.O_CREATE | os.O_WRONLY | os.O_APPEND // one trace over both lives of the node
+	}
+	lf, _ := os.OpenFile(filepath.Join(dir, "c13-node-events.log"), lflags, 0644)
+	hc := &hookCore{d: d, f: lf}
+	if spec.crashResume() && spec.Phase == 1 && spec.K > 0 {
+		hc.armAt, hc.crashK, hc.filter = spec.H0, spec.K, spec.Filter
+	}
+	if spec.restarted() {
+		info := n.Application.Info()
+		d.execBase = info.LastBlockHeight
+		d.checked = 0
+		fmt.Fprintf(lf, "# RESTART state %d store %d application %d\n", n.Angine.VerifState().LastBlockHeight, n.Angine.VerifBlockStore().Height(), info.LastBlockHeight)
+		run.Distinct("heights_after_the_node_was_built_again", fmt.Sprintf("store-state=%d application-state=%d", n.Angine.VerifBlockStore().Height()-n.Angine.VerifState().LastBlockHeight, info.LastBlockHeight-n.Angine.VerifState().LastBlockHeight))
+	}
+	glog.SetLog(zap.New(hc))
 	if err := n.Start(); err != nil {
+		if spec.restarted() {
+			run.Eval()
+			run.ChildViolation("crash-resume:restart-fails:Start-returns-an-error", fmt.Sprintf("scenario %d (crash-resume): Node.Start on the directory of the killed node returns %v", spec.ID, err), map[string]interface{}{"scenario": &spec, "seed": spec.Seed})
+			run.MarkComplete()
+			run.ExportTo(out)
+			prefixCounters(out, &spec)
+			os.Exit(0)
+		}
 		bail("Start: %v", err)
 	}
 	fmt.Fprintf(inlog, "BEGIN scenario %d %s\n", spec.ID, spec.Kind)
@@ -947,6 +1025,11 @@ func syncWorker(args []string) {
 	nTeam := 3
 	if spec.Kind == "control" {
 		nTeam = 0
+	}
+	if spec.crashResume() {
+		// three honest peers at the top of the chain, before the kill and after the restart
+		nTeam = 2
+		d.final, d.hLimit = true, c.top
 	}
 	for i := 0; i < nTeam; i++ {
 		d.team = append(d.team, mkPeer(fmt.Sprintf("team%d", i), false))
@@ -1014,6 +1097,7 @@ func syncWorker(args []string) {
 		fmt.Println("export failed:", err)
 		os.Exit(1)
 	}
+	prefixCounters(out, &spec)
 	if !d.isFailed() && !trace {
 		os.Remove(out + ".inputs")
 	}
@@ -1031,7 +1115,11 @@ func (d *director) finish() {
 	d.flushHeld()
 	// give the honest peer's announcement a moment to be in the pool before the others go
 	time.Sleep(60 * time.Millisecond)
+	allStay := d.spec.crashResume() // every peer is honest and stays
 	for _, p := range d.team {
+		if allStay {
+			break
+		}
 		atomic.StoreInt32(&p.leave, 1)
 		p.hangup()
 		d.H.announce()
@@ -1041,7 +1129,10 @@ func (d *director) finish() {
 	rounds := 0
 	done := func() bool { return d.storeHeight() >= c.top-1 || atomic.LoadInt32(&d.switched) != 0 }
 	for ; rounds < 160 && !done(); rounds++ {
-		if !d.H.connected() {
+		if allStay {
+			d.keepPeers()
+			d.announceAll()
+		} else if !d.H.connected() {
 			if err := d.H.dial(); err == nil {
 				d.run.Count("honest_peer_reconnects_in_final_phase", 1)
 			}
@@ -1067,6 +1158,11 @@ func (d *director) finish() {
 		d.mtx.Unlock()
 		if len(ve) > 6 {
 			ve = ve[len(ve)-6:]
+		}
+		if d.spec.restarted() {
+			d.viol("wedged", fmt.Sprintf("after the restart of the killed node three honest peers at height %d that answered every request and announced their height %d times did not get it past height %d (it was at %d when it had been built again)", c.top, rounds, d.storeHeight(), start),
+				map[string]interface{}{"last_validation_errors": ve, "goroutines": goroutineDump("blockchain.")})
+			return
 		}
 		d.viol("blocksync-wedged:"+last, fmt.Sprintf("after the malicious peers left, an honest peer that answered every request and announced its height %d times did not get the node past height %d (it was at %d when they left; chain top %d)", rounds, d.storeHeight(), start, c.top),
 			map[string]interface{}{"last_validation_errors": ve, "goroutines": goroutineDump("blockchain.")})
